@@ -89,6 +89,25 @@ Theorem C02_files_are_independent : forall evs s1 s2 f, view s1 f = view s2 f ->
 Proof. exact interleaving_independent. Qed.
 Print Assumptions C02_files_are_independent.
 
+Theorem C02_wrong_parent_refused : forall to_end t p u r nm np,
+  find_node t u = Some r -> n_parent r <> p ->
+  step_table to_end t (ODelete p u) = (t, RErr) /\
+  step_table to_end t (ORename p u nm) = (t, RErr) /\
+  step_table to_end t (OMove p u np) = (t, RErr).
+Proof. exact wrong_parent_refused. Qed.
+Print Assumptions C02_wrong_parent_refused.
+
+(* non-vacuity: A/x and B/x exist; the node A/x (uid 3) with the parent B (uid 2), which has a child of that name *)
+Example C02_wrong_parent_example :
+  let t1 := fst (step_table false empty_table (OCreate 0 1 [65])) in
+  let t2 := fst (step_table false t1 (OCreate 0 2 [66])) in
+  let t3 := fst (step_table false t2 (OCreate 1 3 [120])) in
+  let t4 := fst (step_table false t3 (OCreate 2 4 [120])) in
+  (exists r, find_node t4 3 = Some r /\ n_parent r <> 2) /\
+  step_table false t4 (ORename 2 3 [110]) = (t4, RErr) /\
+  snd (step_table false t4 (ORename 1 3 [110])) = ROk.
+Proof. vm_compute. split; [eexists; split; [reflexivity|discriminate]|split; reflexivity]. Qed.
+
 (* non-vacuity: a concrete history exercising create / dims / write / block write / delete / rename / move *)
 Example C02_example :
   let t1 := fst (step_table false empty_table (OCreate 0 1 [65])) in
